@@ -134,6 +134,13 @@ def run(model: RepoModel, rep, tier: str):
     _r9_hoisting(model, rep)
     from .c01 import check_receiver_param_removal
     check_receiver_param_removal(model, rep, "C05.R10", declare=True)
+    from .. import generic2
+    DECL_KEYS = ("global_stmt", "nonlocal_stmt", "import_stmt", "from_import_stmt", "import_as_stmt", "export_stmt", "variable_decl", "parameter_decl",
+                 "method_decl", "class_decl", "namespace_decl", "with_stmt", "catch_clause")
+    rep.rule("C05.R11", "every name of a declaration list reaches the GIR: what a frontend computes for each name in a loop (`global a, b`, "
+                        "`import x, y`, a parameter list) is emitted inside that iteration, not once after the loop for the last name only", 30)
+    generic2.check_per_iteration_values(model, rep, "C05.R11", sorted(r for r in model.modules if r.startswith("lang/") and r.endswith("_parser.py")),
+                                        func_filter=generic2.emits(DECL_KEYS))
     from ..generic import check_accumulators
     check_accumulators(model, rep, "C05.R8", [SH, IH], C05_ADJUDICATED,
                        "declarations, visible scopes or import candidates gathered so far are incomplete, so some names stay unresolved or bind elsewhere", 5)
@@ -1110,6 +1117,10 @@ def _r7(model, rep, RID="C05.R7"):
                               f"descending an import path only follows {sorted(x for x in kinds if x)} edges, but the import graph also has "
                               f"{k} edges (added at line {ln} for names a module imports itself): `from util import f` no longer resolves "
                               f"when util only re-exports f from a third module -- moving a function behind a re-export changes the call graph")
+    # relative imports: `from ...pkg import f` climbs one package per extra dot; the climb has to advance (sa/generic2.py, L3)
+    from ..generic2 import check_counted_walks
+    if check_counted_walks(model, rep, RID, [IH]) < 1:
+        raise AnalysisError("the counted climb of relative imports (for _ in range(levels_up)) is no longer recognised in import_hierarchy.py")
 
 
 def _enclosing_if(root, node) -> Optional[ast.If]:
